@@ -11,6 +11,31 @@ CHECKS = {
             "Randomised exploration of writer programs (prototypes with every bit width 0..64, point counts around packet capacity, section positions swept mod 1020) with a round-trip oracle; finds counterexamples, cannot prove absence.",
             "Trusted: the harness's program executor and adapters; in-memory device semantics equal to a file.",
             "DESIGN.md section 5 C01"),
+    "C02": ("exploration",
+            "property-based testing: generated writer programs, differential oracle against an independent decoder/validator (e57ref) plus round trip against the generated input",
+            "Randomised exploration of writer programs; each finalized file is validated item by item and decoded by an independent implementation of the format and compared with the writer's input and with the crate's own reader.",
+            "Trusted: e57ref's reading of ASTM E2807 (preflight: accepts the 12 libE57Format-written bundled files without complaint and decodes all their points).",
+            "DESIGN.md section 5 C02"),
+    "C03": ("exploration",
+            "property-based testing: scenes x legal layouts from an independent encoder (e57ref), oracle = reader output equals the encoded scene; reference decoder self-check per case",
+            "Randomised exploration of the space of legal layouts (packetisation, interleaved non-data packets, padding, section order, XML lexical variants) produced by an independent encoder; finds counterexamples, cannot prove absence.",
+            "Trusted: e57ref's encoder emits only legal files (every case is first decoded by e57ref's own decoder; disagreement is exit 2, not a violation).",
+            "DESIGN.md section 5 C03"),
+    "C04": ("exploration",
+            "property-based testing: generated writer programs over every setter with adversarial strings/floats/integers, field-by-field round-trip oracle",
+            "Randomised exploration of metadata values (XML-significant strings, non-finite floats, integer extremes, all image representations) with a field-by-field round-trip oracle and XML byte equality.",
+            "Trusted: harness adapters mapping reader getters to the neutral scene model.",
+            "DESIGN.md section 5 C04"),
+    "C06": ("exploration",
+            "property-based testing with an enumerated length sweep: blob/image programs, byte-exact round-trip oracle, descriptor perturbation against the logical stream",
+            "Every blob length 0..=1030 (thorough 0..=4100 x 4 positions) enumerated plus randomised programs mixing blobs, images and clouds; byte-exact oracle.",
+            "Trusted: e57ref page-layer unpaging for the perturbed-descriptor oracle.",
+            "DESIGN.md section 5 C06"),
+    "C14": ("exploration",
+            "property-based testing: generated prototypes/points, bounds recomputed independently from the generated points, limits from the declared ranges",
+            "Randomised exploration of attribute-group subsets, data types and point sequences; bounds and limits are recomputed by an independent model and compared numerically.",
+            "Trusted: harness model of min/max over real values; NaN excluded as the property states.",
+            "DESIGN.md section 5 C14"),
 }
 
 PENDING_REASON = "check not built yet in this round of work (see DESIGN.md section 10 for the build order); not claimed"
